@@ -61,6 +61,11 @@ static const occa::dtype_t &dtypeOf(const std::string &n) {
   if (n == "float") return float_;
   if (n == "uchar4") return uchar4;
   if (n == "short2") return short2;
+  if (n == "char3") return char3;
+  if (n == "uchar3") return uchar3;
+  if (n == "double") return double_;
+  if (n == "int64") return int64;
+  if (n == "float2") return float2;
   fprintf(stderr, "unknown dtype %s\n", n.c_str());
   exit(2);
 }
